@@ -178,6 +178,13 @@ func main() {
 		try(func() { r := a.ConvTCaller(u); record("a.ConvTCaller", 0, r == nil, false, r) })
 		try(func() { r := a.ConvTIface(u); record("a.ConvTIface", 0, r == nil, true, r) })
 	}
+	for _, e := range []error{nil, &a.DErr{}, fmt.Errorf("x")} {
+		try(func() { r := a.Repair(e); record("a.Repair", 0, r == nil, true, r) })
+	}
+	for _, p := range []*int{nil, new(int), &a.GInt} {
+		try(func() { r := a.RepairPtr(p); record("a.RepairPtr", 0, r == nil, false, r) })
+		try(func() { r := a.RepairNeq(p); record("a.RepairNeq", 0, r == nil, false, r) })
+	}
 	for key, o := range table {
 		fmt.Println(key, o.returned, o.outerNil, o.outerNon, o.innerNil, o.innerNon)
 	}
